@@ -68,7 +68,7 @@ CHECKS = {
    note=S_NOTE),
  'C15': dict(engine='vsched + enumeration', cat='model_checking', ref='4 (C15), 2.2',
    technique='exhaustive enumeration of handler behaviours through the real Mux+Relay judged per log format, plus stateless model checking of 2-3 requests in flight',
-   text='Sequential part: 77 behaviours (11 write patterns x {no panic, panic after writing with 6 value kinds} + panic before writing x 6) x matched/no-route x 2 client address forms x 3 log handlers x 2 thresholds = 1992 requests; no panic escapes, the recorder sees 500 iff the handler panicked before writing, exactly one REQ_BEG/REQ_END (Info) carrying method, URI, client IP, the id the handler saw and the status the client received, exactly one Error record with the panic value and the same id. Concurrent part: 2 and 3 requests in flight for each log handler, all interleavings to the bound; records pair up by id. Write patterns include Flush / FlushError and a body streamed with io.Copy; panic values include a typed nil error with value receiver and unhashable values (slice, map, struct holding a slice, func).',
+   text='Sequential part: 77 behaviours (11 write patterns x {no panic, panic after writing with 6 value kinds} + panic before writing x 6) x matched/no-route x 2 client address forms x 3 log handlers x 2 thresholds = 1992 requests; no panic escapes, the recorder sees 500 iff the handler panicked before writing, exactly one REQ_BEG/REQ_END (Info) carrying method, URI, client IP, the id the handler saw and the status the client received, exactly one Error record with the panic value and the same id. Concurrent part: 2 and 3 requests in flight for each log handler, all interleavings to the bound; records pair up by id. Write patterns include Flush / FlushError and a body streamed with io.Copy; panic values include a typed nil error with value receiver and unhashable values (slice, map, struct holding a slice, func). One write pattern streams the body with io.Copy from a source that delivers three bytes and then panics inside its second Read.',
    note=S_NOTE + ' Records are decoded by the JSON reader / text tokenizer / positionally (nano).'),
  'C16': dict(engine='enumeration', cat='exploration', ref='4 (C16), 2.4',
    technique='exhaustive enumeration of all strings up to length 5 over the 15-symbol alphabet against a POSIX word-splitting model, and up to length 4 (quick) / 5 (thorough) against the real dash and bash',
@@ -88,7 +88,7 @@ CHECKS = {
    note='Trusted base: strconv / time.ParseDuration / base64 as value parsers; literal environment names in the harness.'),
  'C18': dict(engine='fault enumeration (vos seam)', cat='fault_enumeration', ref='4 (C18), 2.1',
    technique='exhaustive enumeration of fault positions: every numbered file-system call of each scenario fails in turn (plus calls revealed by a fault, and every pair in thorough), on a real temporary directory and a second real file system',
-   text='111 scenarios (size x destination x alias x parent x source presence, CopyFile and MoveFile, real EXDEV between / and /dev/shm) x every single fault position incl. partial copies (about 600 runs quick; every pair of positions in thorough); byte-level snapshots before/after decide; the source may be removed only once the destination is complete (checked at the remove call). Aliases include the source being a symbolic link to the destination; contents include zero tails and all-zero files at 64 KiB, 128 KiB and 1 MiB.',
+   text='111 scenarios (size x destination x alias x parent x source presence, CopyFile and MoveFile, real EXDEV between / and /dev/shm) x every single fault position incl. partial copies (about 600 runs quick; every pair of positions in thorough); byte-level snapshots before/after decide; the source may be removed only once the destination is complete (checked at the remove call). Aliases include the source being a symbolic link to the destination; contents include zero tails and all-zero files at 64 KiB, 128 KiB and 1 MiB. In addition eight scenarios run one CopyFile / cross-device MoveFile (1 B .. 1 MiB+5) under the controlled scheduler (util/osutil/file.go is instrumented for channels, select and go): one execution each for a sequential copy, every interleaving and every ready select case for an implementation that copies with goroutines of its own.',
    note='Trusted base: the vos seam (engine/shim/vos) mounted over os/io calls of util/osutil by the instrumenter; real file systems.'),
  'C20': dict(engine='spin + real-process replay', cat='model_checking', ref='4 (C20), 2.5',
    technique='Promela model of caller/launcher/daemon checked exhaustively by spin (no partial-order reduction), parameterised by whether the SIGINT handler of the launcher is in place before cmd.Start (measured on the real processes, cross-checked against the source); every reachable schedule class is obtained by reachability queries with replayed witness trails and then replayed on real processes through the verif pause points',
